@@ -1,13 +1,17 @@
 package props
 
 import (
+	"encoding/base64"
 	"encoding/binary"
+	"encoding/pem"
 	"fmt"
 	mrand "math/rand"
 
 	"verifharness/mon"
 	"verifharness/ref"
 	"verifharness/world"
+
+	"google.golang.org/protobuf/proto"
 )
 
 // bcase is one labelled byte-string input.
@@ -210,6 +214,74 @@ func byteCorpus(x *mon.Ctx) []bcase {
 		}
 	}
 
+	// a valid quote inside the envelopes it travels in (the driver's shared GetQuote buffer, the quote generation service's
+	// message, length prefixes, text encodings, the serialised message): none of them is a quote
+	{
+		v := valid[0]
+		le := func(w int, n uint64) []byte {
+			b := make([]byte, 8)
+			binary.LittleEndian.PutUint64(b, n)
+			return b[:w]
+		}
+		be32 := func(n int) []byte { b := make([]byte, 4); binary.BigEndian.PutUint32(b, uint32(n)); return b }
+		cat := func(parts ...[]byte) []byte {
+			var o []byte
+			for _, p := range parts {
+				o = append(o, p...)
+			}
+			return o
+		}
+		qgs := func(minor uint16, body []byte) []byte { // major 1, minor, type 1 (GET_QUOTE_RESP), size, error code 0, selected id size 0, quote size
+			msg := cat(le(2, 1), le(2, uint64(minor)), le(4, 1), le(4, uint64(16+8+len(body))), le(4, 0), le(4, 0), le(4, uint64(len(body))), body)
+			return msg
+		}
+		for _, pad := range []int{0, 1, 4096} {
+			padding := make([]byte, pad)
+			for _, ol := range []int{len(v), len(v) + pad, 0x4000} {
+				add("enveloped", fmt.Sprintf("getquote-buffer/out_len=%d/pad=%d", ol, pad), cat(le(8, 1), le(8, 0), le(4, 1024), le(4, uint64(ol)), v, padding))
+			}
+			add("enveloped", fmt.Sprintf("getquote-buffer-with-qgs-message/pad=%d", pad), cat(le(8, 1), le(8, 0), le(4, 1024), le(4, uint64(4+len(qgs(0, v)))), be32(len(qgs(0, v))), qgs(0, v), padding))
+			add("enveloped", fmt.Sprintf("qgs-message-length-prefixed/minor0/pad=%d", pad), cat(be32(len(qgs(0, v))), qgs(0, v), padding))
+			add("enveloped", fmt.Sprintf("qgs-message-length-prefixed/minor1/pad=%d", pad), cat(be32(len(qgs(1, v))), qgs(1, v), padding))
+			add("enveloped", fmt.Sprintf("qgs-message/pad=%d", pad), cat(qgs(0, v), padding))
+			add("enveloped", fmt.Sprintf("length-prefix-be32/pad=%d", pad), cat(be32(len(v)), v, padding))
+			add("enveloped", fmt.Sprintf("length-prefix-le32/pad=%d", pad), cat(le(4, uint64(len(v))), v, padding))
+			add("enveloped", fmt.Sprintf("length-prefix-le64/pad=%d", pad), cat(le(8, uint64(len(v))), v, padding))
+			add("enveloped", fmt.Sprintf("td-report-then-quote/pad=%d", pad), cat(make([]byte, 1024), v, padding))
+			add("enveloped", fmt.Sprintf("report-data-then-quote/pad=%d", pad), cat(make([]byte, 64), v, padding))
+		}
+		add("enveloped", "hex-text", []byte(fmt.Sprintf("%x", v)))
+		add("enveloped", "base64-text", []byte(base64.StdEncoding.EncodeToString(v)))
+		add("enveloped", "pem", pem.EncodeToMemory(&pem.Block{Type: "TDX QUOTE", Bytes: v}))
+		add("enveloped", "utf8-bom", cat([]byte{0xef, 0xbb, 0xbf}, v))
+		if rq, err := ref.ParseQuote(v); err == nil {
+			if wire, err := proto.Marshal(mon.BuildMessage(rq)); err == nil {
+				add("enveloped", "serialised-message", wire)
+			}
+		}
+	}
+	// the type and size the certification data DECLARES for its inner part against what is actually there: every other type (a
+	// platform identifier of 36 / 276 / 404 bytes for types 1-3, a certificate chain for 4, 5; 6, 7 nest) with declared sizes around
+	// those, over payloads shorter and longer than declared
+	{
+		rq, _ := ref.ParseQuote(valid[0])
+		for _, typ := range []uint16{0, 1, 2, 3, 4, 5, 6, 7, 8, 0xff, 0xffff} {
+			for _, actual := range []int{0, 1, 16, 0x23, 0x24, 0x25, 0x113, 0x114, 0x193, 0x194, 0x195, 3000} {
+				for _, declared := range []int{-1, 0, 1, 0x23, 0x24, 0x25, 0x113, 0x114, 0x115, 0x193, 0x194, 0x195, 0x1000, 0x7fffffff, 0xffffffff} {
+					p := &world.QuoteParts{Header: rq.Header, Body: rq.Body, Sig: rq.Sig, AttPub: rq.AttKey, QeReport: rq.QeReport, QeSig: rq.QeSig, AuthData: rq.AuthData, Extra: rq.Extra}
+					p.Chain = make([]byte, actual)
+					posFill(p.Chain, actual)
+					t := typ
+					p.ChainType = &t
+					if declared >= 0 {
+						d := uint32(declared)
+						p.ChainSize = &d
+					}
+					add("inner-type-and-size", fmt.Sprintf("type=%d/declared=%d/actual=%d", typ, declared, actual), p.Bytes())
+				}
+			}
+		}
+	}
 	// well-formed unsigned pattern quotes with extreme lengths
 	for i, sh := range [][3]int{{0, 0, 0}, {1, 1, 1}, {65535, 0, 0}, {0, 8192, 0}, {65535, 8192, 3000}, {32, 3000, 64}, {2, 7, 0},
 		// certificate data whose length needs more than 16 bits (its size field has 32), alone and together with maximal auth data
